@@ -99,7 +99,7 @@ def specs(tier):
     for s in ["penta", "cw:ell"] + (["you", "quad"] if tier != "quick" else []):
         out.append(dict(module="checks.c02", scenario="PointInShape", params=dict(shape=s, flag=True, via="jordan_in")))
     for s in ["circle8", "lens"] + (["circle16", "dcup"] if tier != "quick" else []):
-        out.append(dict(module="checks.c02", scenario="PointInCurved", params=dict(shape=s), time_budget=45 if tier == "quick" else 1200))
+        out.append(dict(module="checks.c02", scenario="PointInCurved", params=dict(shape=s), time_budget=45 if tier == "quick" else 400))
     return out
 
 
